@@ -220,6 +220,14 @@ class TlcResult:
                 cur = dict(kind="invariant" if m else "deadlock" if m2 else "action",
                            name=(m or m3).group(1).rstrip(".") if (m or m3) else "Deadlock", states=[])
                 res.append(cur)
+                if "by the initial state" in l:
+                    st = []
+                    i += 1
+                    while i < len(lines) and lines[i].strip() != "" and not lines[i].startswith("Error:"):
+                        st.append(lines[i])
+                        i += 1
+                    cur["states"].append("\n".join(st))
+                    continue
             elif cur is not None and _STATE_RE.match(l):
                 st = []
                 i += 1
